@@ -852,7 +852,7 @@ func TestVerifC05ConfLoad(t *testing.T) {
 // orders inside this one process; every call must give exactly what the generator's model says for
 // that call alone, whatever ran before it.
 func TestVerifC05Interleaved(t *testing.T) {
-	m := vk.New(t, "C05", "per scenario three generated shapes (plain json-tagged with keys containing '_', '-', digits and upper-case initials; config shape; all-strings shape) and their valid documents; 14 kinds of calls - conf.LoadFromJsonBytes/LoadFromYamlBytes/Load(file) incl. key variants, mapping.UnmarshalJsonBytes/YamlBytes/JsonMap/JsonReader/YamlReader without options, the same with WithStringValues and with a custom WithCanonicalKeyFunc (upper-casing; document keys upper-cased), UnmarshalKey, httpx.ParseJsonBody, httpx.Parse - run twice in two seeded orders; each result must equal the generator's struct (options of one call must not leak into another)")
+	m := vk.New(t, "C05", "per scenario three generated shapes (plain json-tagged with keys containing '_', '-', digits and upper-case initials; config shape; all-strings shape) and their valid documents; 23 kinds of calls - conf.LoadFromJsonBytes/LoadFromYamlBytes/Load(file) incl. key variants, mapping.UnmarshalJsonBytes/YamlBytes/JsonMap/JsonReader/YamlReader without options, every option-taking entry point (JsonBytes, JsonMap, JsonReader, YamlBytes, YamlReader) also with WithStringValues and with a custom WithCanonicalKeyFunc (upper-casing; document keys upper-cased) - JSON and YAML must honour a caller's options alike, UnmarshalKey, httpx.ParseJsonBody, httpx.Parse - run twice in two seeded orders; each result must equal the generator's struct (options of one call must not leak into another)")
 	defer m.Done()
 	dir := os.Getenv("VK_SCRATCH")
 	if dir == "" {
@@ -928,6 +928,35 @@ func TestVerifC05Interleaved(t *testing.T) {
 				return mapping.UnmarshalJsonBytes(g.JSON(upperDoc), v, mapping.WithCanonicalKeyFunc(strings.ToUpper))
 			}},
 			{"mapping.UnmarshalJsonMap(WithStringValues)", sc, func(v any) error { return mapping.UnmarshalJsonMap(decode(sc.Doc), v, mapping.WithStringValues()) }},
+			{"mapping.UnmarshalJsonReader(WithCanonicalKeyFunc(upper)), upper-cased keys", pc, func(v any) error {
+				return mapping.UnmarshalJsonReader(strings.NewReader(string(g.JSON(upperDoc))), v, mapping.WithCanonicalKeyFunc(strings.ToUpper))
+			}},
+			{"mapping.UnmarshalJsonMap(WithCanonicalKeyFunc(upper)), upper-cased keys", pc, func(v any) error {
+				return mapping.UnmarshalJsonMap(decode(upperDoc), v, mapping.WithCanonicalKeyFunc(strings.ToUpper))
+			}},
+			{"mapping.UnmarshalYamlBytes(WithCanonicalKeyFunc(upper)), upper-cased keys", pc, func(v any) error {
+				if !yamlOK {
+					return mapping.UnmarshalJsonBytes(g.JSON(upperDoc), v, mapping.WithCanonicalKeyFunc(strings.ToUpper))
+				}
+				return mapping.UnmarshalYamlBytes(g.YAML(upperDoc), v, mapping.WithCanonicalKeyFunc(strings.ToUpper))
+			}},
+			{"mapping.UnmarshalYamlReader(WithCanonicalKeyFunc(upper)), upper-cased keys", pc, func(v any) error {
+				if !yamlOK {
+					return mapping.UnmarshalJsonBytes(g.JSON(upperDoc), v, mapping.WithCanonicalKeyFunc(strings.ToUpper))
+				}
+				return mapping.UnmarshalYamlReader(strings.NewReader(string(g.YAML(upperDoc))), v, mapping.WithCanonicalKeyFunc(strings.ToUpper))
+			}},
+			{"mapping.UnmarshalJsonBytes(WithStringValues)", sc, func(v any) error { return mapping.UnmarshalJsonBytes(g.JSON(sc.Doc), v, mapping.WithStringValues()) }},
+			{"mapping.UnmarshalJsonReader(WithStringValues)", sc, func(v any) error {
+				return mapping.UnmarshalJsonReader(strings.NewReader(string(g.JSON(sc.Doc))), v, mapping.WithStringValues())
+			}},
+			{"mapping.UnmarshalYamlBytes(WithStringValues)", sc, func(v any) error { return mapping.UnmarshalYamlBytes(g.YAML(sc.Doc), v, mapping.WithStringValues()) }},
+			{"mapping.UnmarshalYamlReader(WithStringValues)", sc, func(v any) error {
+				return mapping.UnmarshalYamlReader(strings.NewReader(string(g.YAML(sc.Doc))), v, mapping.WithStringValues())
+			}},
+			{"mapping.UnmarshalYamlBytes(WithStringValues, WithCanonicalKeyFunc(identity))", sc, func(v any) error {
+				return mapping.UnmarshalYamlBytes(g.YAML(sc.Doc), v, mapping.WithStringValues(), mapping.WithCanonicalKeyFunc(func(k string) string { return k }))
+			}},
 			{"mapping.UnmarshalKey", kc, func(v any) error { return mapping.UnmarshalKey(decode(kc.Doc), v) }},
 			{"httpx.ParseJsonBody", pc, func(v any) error { return httpx.ParseJsonBody(req(pc.Doc), v) }},
 			{"httpx.Parse", pc, func(v any) error { return httpx.Parse(req(pc.Doc), v) }},
